@@ -71,6 +71,26 @@ Definition run_mpc (c : csr Z * list Z * option (list nat) * option (list nat) *
 Definition run_tuple (c : list Z * list nat * list (list (nat * Z)) * list Z * list nat * list Z) :=
   let '(x, perm, T, g, U, z) := c in gen_expand_tuple Zops x perm (gen_mpc_expand Zops T g U) z.
 Definition eq_mpc := pair_eqb (pair_eqb (pair_eqb zss_eqb zs_eqb) zs_eqb) nats_eqb.
+(* Gaussian integers: complex prescribed values with real matrix / right-hand side, exactly *)
+Definition G := (Z * Z)%type.
+Definition Gops : ring_ops G :=
+  {| r0 := (0, 0)%Z; r1 := (1, 0)%Z; radd := fun a b => (fst a + fst b, snd a + snd b)%Z;
+     rmul := fun a b => (fst a * fst b - snd a * snd b, fst a * snd b + snd a * fst b)%Z;
+     rsub := fun a b => (fst a - fst b, snd a - snd b)%Z; ropp := fun a => (- fst a, - snd a)%Z |}.
+Definition g_eqb (a b : G) := Z.eqb (fst a) (fst b) && Z.eqb (snd a) (snd b).
+Definition gentry_eqb (a b : nat * G) := Nat.eqb (fst a) (fst b) && g_eqb (snd a) (snd b).
+Fixpoint ins_gentry (e : nat * G) (l : list (nat * G)) :=
+  match l with [] => [e] | f :: t => if fst e <=? fst f then e :: l else f :: ins_gentry e t end.
+Definition canong (M : list (list (nat * G))) := map (fun r => fold_right ins_gentry [] r) M.
+Definition mkg (ip : list Z) (ix : list nat) (d : list Z) : csr G := {| indptr := ip; indices := ix; data := map (fun v => (v, 0%Z)) d |}.
+Definition re (l : list Z) : list G := map (fun v => (v, 0%Z)) l.
+Definition run_enforce_g (c : list Z * list nat * list Z * list Z * list G * option (list nat) * option (list nat) * Z) :=
+  let '(ip, ix, d, b, x, Is, Ds, diag) := c in
+  option_map (fun r => (canong (fst r), snd r)) (enforce_call Gops posf (mkg ip ix d) (Some (re b)) (Some x) (fl Is) (fl Ds) (diag, 0%Z)).
+Definition run_penalize_g (c : list Z * list nat * list Z * list Z * list G * option (list nat) * option (list nat) * Z) :=
+  let '(ip, ix, d, b, x, Is, Ds, w) := c in
+  option_map (fun r => (canong (fst r), snd r)) (penalize_call Gops (csr_rows (mkg ip ix d)) (Some (re b)) (Some x) (fl Is) (fl Ds) (w, 0%Z)).
+Definition eq_g := option_eqb (pair_eqb (list_eqb (list_eqb gentry_eqb)) (option_eqb (list_eqb g_eqb))).
 Definition eq_mo := pair_eqb rows_eqb ozs_eqb.
 Definition eq_mm := pair_eqb rows_eqb rows_eqb.
 Definition eq_cond := pair_eqb (pair_eqb (pair_eqb rows_eqb ozs_eqb) zs_eqb) nats_eqb.
@@ -279,7 +299,7 @@ def run(ctx):
     # 3. correspondence + 4. oracle share the generated cases
     state = {'maxdisc': 0.0, 'pen_maxdisc': 0.0, 'eig_maxdisc': 0.0}
     cases = {k: [] for k in ('enforce', 'enforce_eig', 'condense', 'condense_eig', 'penalize', 'expand', 'expand_eig',
-                             'positions', 'mpc', 'tuple')}
+                             'positions', 'mpc', 'tuple', 'enforce_g', 'penalize_g')}
     _gen_random(ctx, cases, state)
     _gen_basis(ctx, cases, state)
     _oracle_mpc(ctx, state, cases)
@@ -300,7 +320,8 @@ def run(ctx):
                 ('expand', 'run_expand', 'zs_eqb'),
                 ('expand_eig', 'run_expand_eig', 'zss_eqb'),
                 ('positions', 'run_positions', '(option_eqb zs_eqb)'),
-                ('mpc', 'run_mpc', 'eq_mpc'), ('tuple', 'run_tuple', 'zs_eqb')]
+                ('mpc', 'run_mpc', 'eq_mpc'), ('tuple', 'run_tuple', 'zs_eqb'),
+                ('enforce_g', 'run_enforce_g', 'eq_g'), ('penalize_g', 'run_penalize_g', 'eq_g')]
         # the files of the different functions are independent: evaluate them concurrently
         from concurrent.futures import ThreadPoolExecutor
         with ThreadPoolExecutor(4) as ex:
@@ -834,6 +855,69 @@ def check_mpc_variants(ctx, state, rng):
                  dict(rep, solution=[[float(np.real(v)), float(np.imag(v))] for v in x]))
 
 
+def c_gs(v):
+    return clist([f'({cz(int(np.real(z)))}, {cz(int(np.imag(z)))})' for z in v])
+
+
+def check_complex_values_real_system(ctx, cases, n, rng):
+    """REAL matrix and right-hand side, COMPLEX prescribed values (Gaussian integers, exact): enforce / penalize must carry
+    x[D] into the returned right-hand side without losing the imaginary part; a copy is made unless overwrite is requested
+    AND the dtype does not change.  Correspondence with the model over the ring of Gaussian integers."""
+    from skfem.utils import enforce, penalize
+    ip, ix, d = rand_csr(rng, n)
+    A = to_scipy(ip, ix, d, n)
+    b = [rng.randint(-9, 9) for _ in range(n)]
+    x = np.array([complex(rng.randint(-9, 9), rng.randint(-9, 9)) for _ in range(n)])
+    S, which = rand_split(rng, n)
+    D = dedup(S) if which == 'D' else [i for i in range(n) if i not in S]
+    Sarr = idx_array(rng, S)
+    diag, k = rng.choice([1, 2, -3]), rng.randint(0, 4)
+    rep = {'fn': 'complex prescribed values, real system', 'n': n, 'indptr': ip, 'indices': ix, 'data': d, 'b': b,
+           'x': [[int(z.real), int(z.imag)] for z in x], which: S, 'diag': diag, 'epsilon': f'2^-{k}', 'nontrivial': 0 < len(D) < n}
+    ctx.count(('complex_values', n, ip, ix, d, b, rep['x'], S, which, diag, k), nontrivial=rep['nontrivial'])
+    sel = (c_onats(S), 'NoNats') if which == 'I' else ('NoNats', c_onats(S))
+
+    def gterm(A2, b2):
+        rows = []
+        C = A2.tocsr()
+        for i in range(n):
+            lo, hi = C.indptr[i], C.indptr[i + 1]
+            rows.append(sorted((int(c), as_int(np.real(v)), as_int(np.imag(v))) for c, v in zip(C.indices[lo:hi], C.data[lo:hi])))
+        rt = clist([clist([f'({cnat(c)}, ({cz(a)}, {cz(bb)}))' for c, a, bb in r]) for r in rows])
+        return f'(Some ({rt}, (Some {c_gs(b2)})))'
+    for fn_name, call, w in (('enforce', lambda ov, bb: enforce(A.copy(), bb, x, diag=float(diag), overwrite=ov, **{which: Sarr}), diag),
+                             ('penalize', lambda ov, bb: penalize(A.copy(), bb, x, epsilon=2.0 ** -k, overwrite=ov, **{which: Sarr}), 2 ** k)):
+        exp = [(x[i] * (w if fn_name == 'penalize' else 1)) if i in D else complex(b[i]) for i in range(n)]
+        for ov in (False, True):
+            bb = np.array(b, dtype=float)
+            try:
+                with warnings.catch_warnings():
+                    warnings.simplefilter('ignore')
+                    A2, b2 = call(ov, bb)
+            except Exception as e:  # noqa: BLE001
+                ctx.fail(f'{fn_name}:complex-values:raises', f'{fn_name} with complex prescribed values and a real right-hand side raises {e!r}', rep)
+                break
+            ok = len(b2) == n and all(complex(b2[i]) == exp[i] for i in range(n))
+            untouched = [float(v) for v in bb] == [float(v) for v in b]
+            if not ok or not untouched:
+                ctx.fail(f'{fn_name}:complex-values', f'{fn_name} with complex prescribed values x and a real right-hand side (overwrite={ov}): '
+                         + ('the returned right-hand side does not carry x[D] (imaginary part lost); ' if not ok else '')
+                         + ('the real argument b was modified although its dtype cannot hold the result' if not untouched else ''),
+                         dict(rep, overwrite=ov, got=[[float(np.real(v)), float(np.imag(v))] for v in np.asarray(b2, dtype=complex)],
+                              expected=[[v.real, v.imag] for v in exp]))
+                break
+            if not ov:
+                inp = tup(cints(ip), cnats(ix), cints(d), cints(b), c_gs(x), sel[0], sel[1], cz(w))
+                cases[fn_name + '_g'].append((inp, gterm(A2, b2), rep))
+        # equal dtype + overwrite: the argument itself is returned
+        bc = np.array(b, dtype=complex)
+        with warnings.catch_warnings():
+            warnings.simplefilter('ignore')
+            _, b3 = call(True, bc)
+        if b3 is not bc:
+            ctx.fail(f'{fn_name}:overwrite-differs', f'{fn_name}(overwrite=True) with a right-hand side of the result dtype does not return it', rep)
+
+
 def check_expand(ctx, cases, n, x, I, z, X):
     from skfem.utils import solve_linear, solve_eigen
     xx = np.array(x, dtype=float)
@@ -963,6 +1047,8 @@ def _gen_random(ctx, cases, state):
                 check_penalize_limit(ctx, state, n, csr, b, x, D, rng, zero_diag=True)
     for it in range(ctx.n(60, 400)):
         check_noncanonical(ctx, rng.randint(1, nmax), rng)
+    for it in range(ctx.n(30, 200)):
+        check_complex_values_real_system(ctx, cases, rng.randint(1, nmax), rng)
     for it in range(ctx.n(30, 200)):
         check_mpc_variants(ctx, state, rng)
     for it in range(ctx.n(40, 250)):
@@ -1170,7 +1256,7 @@ def replay(ctx, data):
     inp = data.get('input', {})
     ctx.log('replaying', data.get('key'))
     ctx.ensure_static()
-    cases = {k: [] for k in ('enforce', 'enforce_eig', 'condense', 'condense_eig', 'penalize', 'expand', 'expand_eig', 'positions', 'mpc', 'tuple')}
+    cases = {k: [] for k in ('enforce', 'enforce_eig', 'condense', 'condense_eig', 'penalize', 'expand', 'expand_eig', 'positions', 'mpc', 'tuple', 'enforce_g', 'penalize_g')}
     state = {'maxdisc': 0.0, 'pen_maxdisc': 0.0, 'eig_maxdisc': 0.0}
     which = 'D' if 'D' in inp else 'I'
     if inp.get('fn') == 'enforce':
